@@ -1,7 +1,7 @@
 #!/bin/bash
 # scripts/try_seed_wt.sh <seed dir name> [property id] [extra check args]: apply a seeded change in the private worktree /tmp/wt/me and run the check against it
 S=$1; ID=${2:-${S%%-*}}; shift; shift
-W=/tmp/wt/me
+W=${WT:-/tmp/wt/me}
 [ -d $W ] || git -C /repo worktree add --detach $W HEAD >/dev/null 2>&1
 git -C $W checkout -q -- . ; git -C $W checkout -q --detach $(git -C /repo rev-parse HEAD)
 git -C $W apply /verif/seeded/$S/patch.diff || { echo "patch does not apply"; exit 2; }
